@@ -180,8 +180,9 @@ HDgetdatainfo(int32 file_id, uint16 tag, uint16 ref, int32 *chk_coord, unsigned 
 
             /* This is a compressed element */
             if (sp_tag == SPECIAL_COMP) {
-                /* Read compression info header */
-                if (HP_read(file_rec, lbuf, (int)COMP_HEADER_LENGTH) == FAIL)
+                /* Read the rest of the compression info header (COMP_HEADER_LENGTH
+                   includes the 2-byte special code that has been read already) */
+                if (HP_read(file_rec, lbuf, (int)COMP_HEADER_LENGTH - 2) == FAIL)
                     HGOTO_ERROR(DFE_READERROR, FAIL);
 
                 /* Decode header to get data length */
